@@ -180,7 +180,7 @@ class HistGen:
 
     def faults(self, batch_n=1):
         r = self.r
-        if not self.opts.get("faults", False) or not r.chance(0.12):
+        if not self.opts.get("faults", False) or not r.chance(self.opts.get("fault_rate", 0.12)):
             return "-"
         k = r.weighted([("f", 4), ("s", 3), ("S", 3), ("g", 3)])
         if k == "f":
@@ -201,7 +201,8 @@ class HistGen:
 
     def op(self):
         r = self.r
-        kind = r.weighted([("att", 34), ("atts", 24), ("prop", 16), ("sign", 7), ("msign", 6), ("restart", 4),
+        kind = r.weighted(self.opts.get("weights") or
+                          [("att", 34), ("atts", 24), ("prop", 16), ("sign", 7), ("msign", 6), ("restart", 4),
                            ("export", 6), ("unknown", 3)])
         ip = r.weighted([("-", 5), (hx("10.0.0.1"), 3), (hx("10.0.0.2"), 2), (hx("::1"), 1), (hx("0:0:0:0:0:0:0:1"), 1)])
         if kind == "att":
